@@ -88,6 +88,10 @@ class Path:
         if z3.is_true(term):
             return
         if z3.is_false(term):
+            import os
+            if os.environ.get("PYVC_DEBUG"):
+                import traceback
+                traceback.print_stack(limit=6)
             raise PathEnd("assume false")
         self.add_fact(term)
         if self.cursor >= self.n_preset:
